@@ -6,6 +6,7 @@ import (
 	"go/token"
 	"go/types"
 	"math/big"
+	"strconv"
 	"strings"
 )
 
@@ -333,15 +334,30 @@ func (vc *VC) binArith(op token.Token, a, b Term, t types.Type) (Term, bool) {
 	case token.REM:
 		s = fmt.Sprintf("(ite (>= %s 0) (mod %s %s) (- (mod (- %s) %s)))", a.S, a.S, b.S, a.S, b.S)
 	case token.SHL:
+		if k, ok := smallLit(b.S); ok {
+			// exact: multiplication by 2^k (the caller wraps to the operand type)
+			s = fmt.Sprintf("(* %s %s)", a.S, new(big.Int).Lsh(big.NewInt(1), uint(k)).String())
+			return vc.convertInt(Term{S: s, T: types.Typ[types.UntypedInt], Sort: "Int"}, t), true
+		}
 		vc.u.declFun("bit.shl", "(Int Int) Int")
 		s = "(bit.shl " + a.S + " " + b.S + ")"
 	case token.SHR:
+		if k, ok := smallLit(b.S); ok {
+			// exact: arithmetic shift = floor division by 2^k
+			s = fmt.Sprintf("(div %s %s)", a.S, new(big.Int).Lsh(big.NewInt(1), uint(k)).String())
+			return vc.mk(s, t), true
+		}
 		vc.u.declFun("bit.shr", "(Int Int) Int")
 		s = "(bit.shr " + a.S + " " + b.S + ")"
 	case token.OR:
 		vc.u.declFun("bit.or", "(Int Int) Int")
 		s = "(bit.or " + a.S + " " + b.S + ")"
 	case token.AND:
+		if m, ok := smallLit(b.S); ok && m >= 0 && (m+1)&m == 0 {
+			// exact: x & (2^k - 1) = x mod 2^k (two's complement)
+			s = fmt.Sprintf("(mod %s %d)", a.S, m+1)
+			return vc.mk(s, t), true
+		}
 		vc.u.declFun("bit.and", "(Int Int) Int")
 		s = "(bit.and " + a.S + " " + b.S + ")"
 	case token.XOR:
@@ -406,4 +422,12 @@ func (vc *VC) convertInt(x Term, to types.Type) Term {
 	size := new(big.Int).Sub(h2, l2)
 	size.Add(size, big.NewInt(1))
 	return vc.mk(fmt.Sprintf("(+ (mod (- %s %s) %s) %s)", x.S, lo, size.String(), lo), to)
+}
+
+func smallLit(s string) (int64, bool) {
+	n, err := strconv.ParseInt(s, 10, 64)
+	if err != nil || n < 0 || n > 62 && false {
+		return 0, false
+	}
+	return n, true
 }
